@@ -71,6 +71,10 @@ type Op[T any] struct {
 	Res   int    `json:"res"`  // index into the case's resources; 0 = "" (per-resource only)
 	Rules []*T   `json:"rules"`
 	Rep   bool   `json:"repeat_of_previous,omitempty"`
+	// Gen: what the harness-registered generator of the custom-strategy rule in Rules does during this
+	// load: "" (returns no controller: the rule is ignored), "fail" (panics: the load must report an
+	// error and change nothing), "traffic" (issues requests from inside the build: a reload in progress)
+	Gen string `json:"generator,omitempty"`
 }
 
 type Case[T any] struct {
@@ -98,6 +102,10 @@ type Obs[T any] struct {
 	Snaps                  []Snap[T]
 	All                    []T
 	Probes                 []ProbeObs[T] `json:",omitempty"`
+	// ObsFault: a getter or the controller export panicked while the state after this operation was
+	// being observed (the code under test must never crash the harness: the panic is caught and
+	// reported by the monitor together with the operation sequence)
+	ObsFault string `json:",omitempty"`
 	// ClearFault: what went wrong when the case was wound up through ClearRulesOfResource (one
 	// resource after the other) and ClearRules; empty = every clear emptied exactly its scope
 	ClearFault string `json:",omitempty"`
@@ -106,6 +114,18 @@ type ProbeObs[T any] struct {
 	Res     int
 	Blocked bool
 	By      *T
+	Fault   string `json:",omitempty"` // the probe request panicked inside the code under test
+}
+
+// guard runs f and returns the text of a panic of the code under test ("" if none).
+func guard(what string, f func()) (fault string) {
+	defer func() {
+		if x := recover(); x != nil {
+			fault = fmt.Sprintf("%s panicked: %v", what, x)
+		}
+	}()
+	f()
+	return ""
 }
 
 func ResName(prefix string, id, i int) string {
@@ -224,12 +244,20 @@ func Run[T any](m *Mod[T], c Case[T], probe bool) []Obs[T] { return RunHooked(m,
 // RunHooked is Run with a callback after every operation (and its observation): the C14 harness
 // sends traffic there.
 func RunHooked[T any](m *Mod[T], c Case[T], probe bool, after func(k int)) []Obs[T] {
+	return RunHooked2(m, c, probe, nil, after)
+}
+
+// RunHooked2 also calls before(k) immediately before operation k.
+func RunHooked2[T any](m *Mod[T], c Case[T], probe bool, before, after func(k int)) []Obs[T] {
 	ctrlProv := map[interface{}]Cid{}
 	statProv := map[interface{}]Cid{}
 	eff := int64(0)
 	var out []Obs[T]
 	for k, o := range c.Ops {
 		var ob Obs[T]
+		if before != nil {
+			before(k)
+		}
 		func() {
 			defer func() {
 				if x := recover(); x != nil {
@@ -259,9 +287,16 @@ func RunHooked[T any](m *Mod[T], c Case[T], probe bool, after func(k int)) []Obs
 			}
 		}()
 		for i := 1; i <= c.NRes; i++ {
-			sn := Snap[T]{Res: i, Get: m.GetRes(c.Res[i])}
+			sn := Snap[T]{Res: i}
+			if f := guard(fmt.Sprintf("GetRulesOfResource(res %d)", i), func() { sn.Get = m.GetRes(c.Res[i]) }); f != "" && ob.ObsFault == "" {
+				ob.ObsFault = f
+			}
 			if m.Ctrls != nil {
-				for pos, co := range m.Ctrls(c.Res[i]) {
+				var cos []CtrlObs[T]
+				if f := guard(fmt.Sprintf("reading the controllers in force of res %d", i), func() { cos = m.Ctrls(c.Res[i]) }); f != "" && ob.ObsFault == "" {
+					ob.ObsFault = f
+				}
+				for pos, co := range cos {
 					e := EnfObs[T]{Rule: co.Rule, CtrlKey: co.Ctrl}
 					id, ok := ctrlProv[co.Ctrl]
 					if !ok {
@@ -287,7 +322,9 @@ func RunHooked[T any](m *Mod[T], c Case[T], probe bool, after func(k int)) []Obs
 			ob.Snaps = append(ob.Snaps, sn)
 		}
 		// GetRules, by tag (the managers are emptied between cases)
-		ob.All = m.GetAll()
+		if f := guard("GetRules", func() { ob.All = m.GetAll() }); f != "" && ob.ObsFault == "" {
+			ob.ObsFault = f
+		}
 		sort.SliceStable(ob.All, func(a, b int) bool { return m.Tag(&ob.All[a]) < m.Tag(&ob.All[b]) })
 		if ob.Changed && !ob.Err && !ob.Panicked {
 			eff++
@@ -300,8 +337,9 @@ func RunHooked[T any](m *Mod[T], c Case[T], probe bool, after func(k int)) []Obs
 	if probe && m.Probe != nil {
 		last := &out[len(out)-1]
 		for i := 1; i <= c.NRes; i++ {
-			b, by := m.Probe(c.Res[i])
-			last.Probes = append(last.Probes, ProbeObs[T]{Res: i, Blocked: b, By: by})
+			p := ProbeObs[T]{Res: i}
+			p.Fault = guard(fmt.Sprintf("the probe request on res %d", i), func() { p.Blocked, p.By = m.Probe(c.Res[i]) })
+			last.Probes = append(last.Probes, p)
 		}
 	}
 	// wind up through the module's clear functions: ClearRulesOfResource empties exactly its resource,
@@ -388,6 +426,12 @@ func CoqCase[T any](m *Mod[T], c Case[T], obs []Obs[T]) string {
 	}
 	var ops, os_ []string
 	for k, o := range c.Ops {
+		if o.Gen == "fail" && obs[k].Err && !obs[k].Panicked {
+			// a load that failed because the harness-registered generator panicked: the model has no
+			// such operation (a failed load is no operation at all; that it changed nothing is the
+			// monitor's clause failed-load-changed-state, and the next snapshot is compared as usual)
+			continue
+		}
 		if o.Kind == "all" {
 			ops = append(ops, "LoadAll "+rl(o.Rules))
 		} else {
@@ -445,6 +489,11 @@ func Monitor[T any](m *Mod[T], c Case[T], obs []Obs[T], rep *emit.Report) (nontr
 		ob := obs[k]
 		if ob.Panicked {
 			fail("C13_no_panic", "load-panicked", fmt.Sprintf("op %d panicked: %s", k, ob.ErrText))
+			return
+		}
+		if ob.ObsFault != "" {
+			// e.g. a nil element of an unfiltered list in force: the getter dereferences it
+			fail("C13_getters_eq_enforced", "getter-panicked", fmt.Sprintf("after op %d: %s", k, ob.ObsFault))
 			return
 		}
 		nan := false
@@ -569,6 +618,10 @@ func Monitor[T any](m *Mod[T], c Case[T], obs []Obs[T], rep *emit.Report) (nontr
 	// rules that failed validation never decide
 	if len(obs) > 0 {
 		for _, p := range obs[len(obs)-1].Probes {
+			if p.Fault != "" {
+				fail("C13_invalid_inert", "request-panicked-in-rule-check", p.Fault)
+				return
+			}
 			var first *T
 			for _, t := range expected[p.Res] {
 				if m.Blocks(t) {
@@ -588,6 +641,9 @@ func Monitor[T any](m *Mod[T], c Case[T], obs []Obs[T], rep *emit.Report) (nontr
 	}
 	return sawInvalid && (sawReuse || sawUnchanged || m.Ctrls == nil)
 }
+
+// SameSnaps: the same controller objects serve the same rules (by ID), the getters report the same rules.
+func SameSnaps[T any](m *Mod[T], a, b []Snap[T]) bool { return sameSnaps(m, a, b) }
 
 func sameSnaps[T any](m *Mod[T], a, b []Snap[T]) bool {
 	if len(a) != len(b) {
@@ -618,6 +674,24 @@ func sameSnaps[T any](m *Mod[T], a, b []Snap[T]) bool {
 func MonitorReuse[T any](m *Mod[T], c Case[T], obs []Obs[T], rep *emit.Report) (nontrivial bool) {
 	statKey := m.StatKey
 	fail := func(clause, sig, detail string) { rep.Fail(c.ID, clause, sig, m.Name+": "+detail, InputOf(m, c)) }
+	for k := range obs {
+		if obs[k].ObsFault != "" {
+			fail("C14_unchanged_keeps_controller", "getter-panicked", fmt.Sprintf("after op %d: %s", k, obs[k].ObsFault))
+			return
+		}
+		// statistic reuse is injective: an attributable statistics object serves at most one controller
+		// in force (two rebuilt rules never share one window / one set of per-value counters)
+		for _, sn := range obs[k].Snaps {
+			for i := range sn.Enf {
+				for j := i + 1; j < len(sn.Enf); j++ {
+					if sn.Enf[i].Stat != nil && sn.Enf[j].Stat != nil && *sn.Enf[i].Stat == *sn.Enf[j].Stat && sn.Enf[i].CtrlKey != sn.Enf[j].CtrlKey {
+						fail("C14_stat_reuse", "statistics-shared-by-two-controllers", fmt.Sprintf("after op %d res %d: the controllers at positions %d and %d are built over the same statistics object %v", k, sn.Res, i, j, *sn.Enf[i].Stat))
+						return
+					}
+				}
+			}
+		}
+	}
 	for k := 1; k < len(obs); k++ {
 		if !obs[k].Changed || obs[k].Err {
 			continue
@@ -690,10 +764,11 @@ func InputOf[T any](m *Mod[T], c Case[T]) interface{} {
 		Res    string   `json:"resource,omitempty"`
 		Rules  []string `json:"rules"`
 		Repeat bool     `json:"identical_repeat_of_previous,omitempty"`
+		Gen    string   `json:"harness_generator_does,omitempty"`
 	}
 	var ops []jop
 	for _, o := range c.Ops {
-		j := jop{Kind: "LoadRules", Rules: []string{}, Repeat: o.Rep}
+		j := jop{Kind: "LoadRules", Rules: []string{}, Repeat: o.Rep, Gen: o.Gen}
 		if o.Kind == "res" {
 			j.Kind, j.Res = "LoadRulesOfResource", fmt.Sprintf("%d:%q", o.Res, c.Res[o.Res])
 		}
